@@ -73,7 +73,9 @@ def run_window(chk, spec, table=None):
 		return
 	anames, acols = J.cells(a.value)
 	if anames != names or len(acols) != len(cols):
-		chk.counters["window_aggregate_names_differ"] += 1
+		# the same request: the same columns under the same names in the same order (a joined-back aggregate has exactly aggregate's header)
+		chk.fail("window's output equals aggregate's output joined back to the rows on the partition key", f"window/header-differs-from-aggregate/{'order' if sorted(map(repr, anames)) == sorted(map(repr, names)) else 'names'}",
+			f"{spec!r}: window columns {names!r}, aggregate columns {anames!r}")
 		return
 	arows = len(acols[0]) if acols else 0
 	akeys = J.rows_from(acols[:nk], arows)
@@ -92,6 +94,17 @@ def run_window(chk, spec, table=None):
 				return
 
 
+def _renamed_last(agg, over, t0):
+	"""the aggregate result with the columns k, g, v (a key that was not grouped on is added as a constant column)"""
+	import warnings
+	with warnings.catch_warnings():
+		warnings.simplefilter("ignore")
+		for nm, fill in (("k", "a"), ("g", 1)):
+			if nm not in over:
+				agg = agg >> Vector([fill] * len(agg), name=nm)
+	return agg
+
+
 def run_window_history(chk, spec):
 	"""a table that came out of sort_by (or an earlier window call) is an ordinary table: after its key cells are written in place, window() partitions by the
 	keys it holds NOW"""
@@ -103,11 +116,17 @@ def run_window_history(chk, spec):
 	v = [rng.choice([1, 2, 5, None]) for _ in range(n)]
 	t0 = Table([Vector(k, name="k"), Vector(g, name="g"), Vector(v, name="v")])
 	how = spec["prepare"]
-	o = call(lambda: {"sort-k": lambda: t0.sort_by("k"), "sort-kg": lambda: t0.sort_by(["k", "g"]), "sort-gk": lambda: t0.sort_by(["g", "k"]), "plain": lambda: t0, "window-first": lambda: (t0.window(over="k", count_over="v"), t0)[1]}[how]())
+	o = call(lambda: {"sort-k": lambda: t0.sort_by("k"), "sort-kg": lambda: t0.sort_by(["k", "g"]), "sort-gk": lambda: t0.sort_by(["g", "k"]), "plain": lambda: t0, "window-first": lambda: (t0.window(over="k", count_over="v"), t0)[1],
+		# the table IS the result of an aggregate over the very keys it is partitioned by next (every key tuple distinct - until a key cell is written)
+		"aggregate-result": lambda: _renamed_last(t0.aggregate(over=spec["over"], apply={"v": ("v", lambda xs: next((x for x in xs if x is not None), None))}), spec["over"], t0)}[how]())
 	if not o.ok or not isinstance(o.value, Table):
 		chk.skip("window-history-prepare-failed")
 		return
 	t = o.value
+	n = len(t)
+	if n == 0:
+		chk.skip("window-history-empty")
+		return
 	vw = spec.get("value_write")
 	if vw == "none-and-float":
 		i, j = rng.sample(range(n), 2) if n > 1 else (0, 0)
@@ -135,11 +154,15 @@ def run_window_history(chk, spec):
 		c12.run_aggregate(chk, s2, table=t)
 
 
-RUNNERS = {"window": run_window, "window_history": run_window_history, "agg_chain": c12.run_agg_chain, "label_keys": c12.run_label_keys}
+RUNNERS = {"nested_apply": c12.run_nested_apply, "window": run_window, "window_history": run_window_history, "agg_chain": c12.run_agg_chain, "label_keys": c12.run_label_keys}
 RUNNERS["recompute"] = recompute.runner("C13")
 
 
 def run(chk):
+	for spec in c12.directed_specs("window"):
+		chk.case("window", spec, "window-directed")
+	for inner in ("aggregate", "window"):
+		chk.case("nested_apply", {"op": "window", "inner": inner}, "nested-apply")
 	recompute.add_cases(chk, "C13")
 	rng = chk.rng
 	for spec in c12.exhaustive_specs(chk, "window"):
@@ -147,7 +170,7 @@ def run(chk):
 	c12.chain_cases(chk, "window")
 	c12.label_key_cases(chk, "window")
 	for _ in range(200 if chk.quick() else 1500):
-		chk.case("window_history", {"seed": rng.randrange(10**9), "n": rng.choice([3, 4, 6, 8]), "prepare": rng.choice(["sort-k", "sort-kg", "sort-gk", "plain", "window-first"]), "writes": rng.choice([0, 1, 2, 3]),
+		chk.case("window_history", {"seed": rng.randrange(10**9), "n": rng.choice([3, 4, 6, 8]), "prepare": rng.choice(["sort-k", "sort-kg", "sort-gk", "plain", "window-first", "aggregate-result", "aggregate-result"]), "writes": rng.choice([0, 1, 2, 3]),
 			"over": rng.choice([["k"], ["k", "g"], ["g"], ["g", "k"]]), "key_mode": rng.choice(["name", "vector"]), "op": rng.choice(["window", "window", "aggregate"]),
 			"value_write": rng.choice([None, None, "none-and-float", "cancelling-floats", "tenths"])}, "window-history")
 	for _ in range(700 if chk.quick() else 4000):
